@@ -223,6 +223,23 @@ def p_duplicate(r, ctx, names):
     return dict(insert=["k_%s :: 7" % names["mod"]], either=names["k_line"])
 
 
+def p_duplicate_from_import(r, ctx, names):
+    """a from-import written over several lines whose alias collides with a global of this file: the error names the
+    line of the colliding name (or the line of the file's own definition), not the line of the `from` keyword"""
+    if not ctx.startswith("outer") or not names.get("imports") or names["k_line"] is None:
+        return None
+    m = r.choice(names["imports"])
+    if r.random() < 0.5:
+        ins = ["from %s use (" % m, "    k_%s as kk_%d," % (m, r.randint(0, 9)), "    // the next one collides",
+               "    k_%s as k_%s," % (m, names["mod"]), ")"]
+        off = 3
+    else:
+        ins = ["from %s use (", "", "    k_%s as k_%s", ")"]
+        ins = [ins[0] % m, ins[1], ins[2] % (m, names["mod"]), ins[3]]
+        off = 2
+    return dict(insert=ins, planted_offset=off, either=names["k_line"])
+
+
 def p_duplicate_std(r, ctx, names):
     """a user global that collides with a name the std preamble imports into every file"""
     if not ctx.startswith("outer"):
@@ -311,6 +328,7 @@ PLANTERS = {
     "unresolved-qualified-type": p_unresolved_qualified_type,
     "duplicate-global": p_duplicate,
     "duplicate-global-vs-std": p_duplicate_std,
+    "duplicate-from-import-multiline": p_duplicate_from_import,
     "assign-to-constant": p_assign_constant,
     "assign-to-local-constant": p_assign_local_constant,
     "operator-mismatch": p_operator_mismatch,
